@@ -74,7 +74,7 @@ PROPS = {
 }
 
 
-SOLVER = "the Rust five-phase solver itself is not modelled: every decoder/encoder theorem is for an arbitrary solver meeting SolverSpec; that the Rust solver meets it is established by correspondence against the checked Gauss-Jordan oracle (solved verdicts re-verified row by row, singular verdicts carry a verified kernel vector)"
+SOLVER = "the five-phase solver of pi_solver.rs is modelled op for op (Model/PiSolver.lean, both back-ends, incl. a model of the standard library's unstable sort that fixes the sparse column-index order) and tied to the Rust solver by comparing recorded operation vectors (engine `solver`); it is NOT yet proved to meet SolverSpec: every decoder/encoder theorem is for an arbitrary solver meeting SolverSpec, and that the Rust solver meets it is established by correspondence against the verified Gauss-Jordan oracle (C02b)"
 INVERT = "that A(K') is invertible for each of the 477 K' (consistency of the encoder's own system) is an explicit hypothesis of the object-level theorems; it is evaluated for all 477 K' by the `inter` engine, not by the kernel"
 
 PROPS.update({
@@ -86,7 +86,7 @@ PROPS.update({
     },
     "C02": {
         "thm_modules": ["Rq.Thm.C02", "Rq.Thm.C02b"],
-        "engines": [("decblk", "release"), ("decblk", "debug"), ("overhead", "release"), ("fastpath", "release"), ("fastpath", "debug")],
+        "engines": [("decblk", "release"), ("decblk", "debug"), ("overhead", "release"), ("fastpath", "release"), ("fastpath", "debug"), ("solver", "release")],
         "modelled": [SOLVER],
         "assumptions": ["the counter generator_too_weak_singular_sets is raised when fewer than 10 certified singular sets were seen in a run"],
     },
@@ -103,8 +103,8 @@ PROPS.update({
         "assumptions": [RFC_TABLES, INVERT, "the Spec (entry-wise matrix, MT x GAMMA as a naive sum, Enc/Tuple/Rand/Deg) is written from RFC 6330 5.3; no other RaptorQ implementation is available offline to cross-check it"],
     },
     "C06": {
-        "thm_modules": ["Rq.Thm.C06", "Rq.Thm.C06b", "Rq.Thm.Tables"],
-        "engines": [("inter", "release"), ("plan", "release"), ("plan", "debug"), ("tables", "release")],
+        "thm_modules": ["Rq.Thm.C06", "Rq.Thm.C06b", "Rq.Thm.C06c", "Rq.Thm.Tables"],
+        "engines": [("inter", "release"), ("plan", "release"), ("plan", "debug"), ("tables", "release"), ("solver", "release")],
         "modelled": [SOLVER],
         "assumptions": [INVERT, "plan certificates (identity-block replay) are evaluated by the compiled model driver for K <= 130 (quick) / 400 (thorough): compiled Lean evaluation, not a kernel proof; all 477 K' are covered by checking Rust's intermediate symbols against every row of the Spec system"],
     },
@@ -126,7 +126,7 @@ PROPS.update({
     },
     "C07": {
         "thm_modules": ["Rq.Thm.C07"],
-        "engines": [("configs", "release"), ("configs", "debug"), ("kernels", "release")],
+        "engines": [("configs", "release"), ("configs", "debug"), ("kernels", "release"), ("solver", "release"), ("solver", "debug")],
         "nostd_workload": True,
         "modelled": [SOLVER, "optimised vs debug-assertion code generation, std vs no_std, and the release-only errata-11 column skipping are not modelled: covered by the correspondence run only (partial)"],
         "assumptions": ["four builds (std/no_std x checked/unchecked) run one public-API workload and are compared textually; inside the std harness: dispatch ceiling x sparse threshold x plan mode grid against the canonical result, which is tied to the model"],
